@@ -52,7 +52,8 @@ class _TransactionBase:
                 table = self._mdib.context_states if transaction_item.new.is_context_state else self._mdib.states
             if transaction_item.new is None:
                 continue  # state was deleted, there is nothing to add and nothing that could be reported
-            table.add_object_no_lock(transaction_item.new)
+            # the mdib gets its own object; the one that was handed out to the application stays private
+            table.add_object_no_lock(transaction_item.new.mk_copy(copy_node=False))
             updates_list.append(transaction_item.new.mk_copy(copy_node=False))
         return updates_list
 
